@@ -191,7 +191,7 @@ def run(ctx):
     base_bytes = [b for _, b in bases]
     cases, meta = [], []       # meta: dict per case
 
-    def add(source, data, names, t, flags=(), label=None, transport="plain"):
+    def add(source, data, names, t, flags=(), label=None, transport="plain", container=None):
         """transport (ARPA text only): plain = a regular file (mmap path of FilePiece); gz / bz2 / xz = a compressed file and
         pipe = /dev/stdin fed by another process (all four: the read() path, FilePiece::ReadShift)"""
         idx = len(cases)
@@ -199,13 +199,18 @@ def run(ctx):
         open(p, "wb").write(data)
         flags = list(flags)
         load = p
-        if transport in ("gz", "bz2", "xz"):
+        if container is not None:
+            # the bytes of a (damaged) compressed container are the file; `data` is the text that was compressed
+            load = p + ".container"
+            open(load, "wb").write(container)
+        elif transport in ("gz", "bz2", "xz"):
             load = p + "." + transport
             open(load, "wb").write(compress(transport, data))
         elif transport == "pipe":
             flags.append("pipe")
         cases.append((t, load, rng.next() & 0xffffffff, flags))
-        meta.append({"source": source, "mutations": names, "type": t, "flags": flags, "path": p, "label": label, "size": len(data), "transport": transport})
+        meta.append({"source": source, "mutations": names, "type": t, "flags": flags, "path": p, "label": label, "size": len(data), "transport": transport,
+                     "container": load if container is not None else None})
 
     # corpus first
     cdir = os.path.join(vlib.ROOT, "corpus", "C10")
@@ -234,6 +239,15 @@ def run(ctx):
             # ... and through the read() path, where the buffer (not the window) has to grow: a compressed file and a pipe
             for tr in (["pipe", rng.choice(["gz", "bz2", "xz"])] if ctx.quick else STREAMS):
                 add("arpa", data, [name, "via:" + tr], t, [], transport=tr)
+    # damaged compressed containers around a valid text: truncated streams (header / middle / trailer), a changed byte, appended
+    # bytes, two members; as a file and, for some, through a pipe.  Oracle only (success or exception, no hang): the outcome depends
+    # on the decompression library, which is not modelled.
+    for kind in ("gz", "bz2", "xz"):
+        text = bases[0][1] if rng.chance(2, 3) else bases[2 + rng.below(len(bases) - 2)][1]
+        comp = compress(kind, text)
+        for cdata, name in c10gen.container_mutants(rng, comp, ctx.pick(3, 12)):
+            for t in ([rng.choice("01"), rng.choice("2345")] if kind == "gz" or not ctx.quick else [rng.choice("012345")]):
+                add("arpa", text, [name, "in:" + kind], t, ["pipe"] if rng.chance(1, 4) else [], container=cdata)
     # ARPA mutants
     n_arpa = ctx.pick(600, 30000)
     for _ in range(n_arpa):
@@ -292,10 +306,14 @@ def run(ctx):
     step = 400
     for i in range(0, len(cases), step):
         outs += run_cases(drv, cases[i:i + step], timeout=max(600, 3 * step))
-    # UBSan's enum check stops the process when binary_format.cc *reads* a model_type field that is not one of the six
-    # enumerators -- the very value MatchCheck / LoadVirtual go on to reject with an exception.  That report is not a crash,
-    # hang or out-of-bounds access (the property's terms), so the case is decided by the uninstrumented build instead.
-    enum_idx = [i for i, v in enumerate(outs) if v.startswith("SAN ") and "not a valid value for type 'ModelType'" in v]
+    # UBSan (built with -fno-sanitize-recover) stops the process at arithmetic / enum findings that are not a crash, a hang or an
+    # out-of-bounds access in the property's terms: *reading* a model_type field that is not one of the six enumerators (the very
+    # value MatchCheck / LoadVirtual go on to reject with an exception), a shift by 64 or an integer overflow in the size
+    # arithmetic on garbage counts of a header that does not match its image.  What the code does next cannot be seen in that build,
+    # so such a case is decided by the uninstrumented build (where a real crash -- SIGFPE, SIGSEGV -- is still a violation).
+    # Memory findings of UBSan (null reference, index out of bounds, ...) and everything ASan reports stay violations.
+    benign = ("not a valid value for type", "shift exponent", "signed integer overflow")
+    enum_idx = [i for i, v in enumerate(outs) if v.startswith("SAN ") and "runtime error:" in v and any(b in v for b in benign)]
     if enum_idx:
         rel = vlib.compile_driver("c10_driver", DRV, variant="release")
         redo = vlib.run_lines(rel, ["%s %s %x %s %s" % (t, p, s, os.path.dirname(p), " ".join(fl)) for t, p, s, fl in [cases[i] for i in enum_idx]], timeout=600)
@@ -326,6 +344,9 @@ def run(ctx):
         mlines, keys = [], {}
         for m in meta:
             data = open(m["path"], "rb").read()
+            if m.get("container"):
+                m["model_key"] = None
+                continue
             if m["source"] == "arpa" and m.get("transport", "plain") != "plain":
                 line = "T %s %s" % ("T" if family(m["type"]) == "trie" else "P", data.hex() or "-")
             elif m["source"] == "arpa":
@@ -348,6 +369,9 @@ def run(ctx):
             mout += vlib.run_lines(ocaml, mlines[i:i + 2000], timeout=1800,
                                    prefix=("sh", "-c", 'ulimit -s unlimited 2>/dev/null || ulimit -s 4000000; exec "$0" "$@"'))
         for m, v in zip(meta, outs):
+            if m["model_key"] is None:
+                unmodelled += 1
+                continue
             mo = mout[m["model_key"]]
             m["model"] = mo
             c = verdict_class(v)
@@ -418,7 +442,7 @@ def run(ctx):
                         "UBSan reports for reading an out-of-range ModelType are decided by the uninstrumented build (the value is rejected by an exception)",
                         "extraction (ExtrOcamlBasic only), the OCaml and C++ drivers and the Python generators are trusted"]
     for m, v, msg in fails[:40]:
-        data = open(m["path"], "rb").read()
+        data = open(m.get("container") or m["path"], "rb").read()
         ctx.report(signature_of(m["source"], m["type"], v), msg,
                    {"source": m["source"], "type": m["type"], "flags": m["flags"], "mutations": m["mutations"], "verdict": v,
                     "file_z": pack(data), "file_len": len(data), "ngrams_z": ngrams_of(m["flags"]), "transport": m.get("transport", "plain")})
